@@ -22,6 +22,7 @@ RULE = (
     "torus flags, d in {2,3}; weights and biases perturbed away from initialisation (integer weights for the bias-free part). "
     "Non-trivial: >=2 input types contribute to some target type; distinct by configuration."
 )
+RULE += " Also: equal-channel and wide layers, single-pixel banks, long-reach dilation, whole models as workload, missing_filter flag; flags x padding by a covering schedule."
 ASSUMPTIONS = ["reference layer vmon/ref/layer.py = ref.conv + Kronecker contraction + bias rule of the statement", "tolerance 1e-4 of the trace scale (float32 accumulation)"]
 ANCHORS = ["ginjax.ml.layers:ConvContract.__init__", "ginjax.ml.layers:ConvContract.individual_convolve", "ginjax.ml.layers:ConvContract.__call__", "ginjax.geometric.functional_geometric_image:convolve_contract"]
 MIN_NONTRIVIAL = {"quick": 30, "thorough": 500}
